@@ -286,7 +286,7 @@ fn cell_tok(k: &str, n: u64, x: bool, v: Option<&ValPick>) -> Value {
 /// one random physical table; returns (rows, bounding-box height, width) of what it denotes
 fn gen_table(rng: &mut StdRng, nrows: usize) -> (Vec<Value>, u64, u64) {
     let empty_runs: [u64; 10] = [1, 1, 2, 3, 5, 17, 200, 1000, 1024, 16384];
-    let blank_rows: [u64; 9] = [1, 1, 2, 3, 7, 50, 1000, 65536, 1048576];
+    let blank_rows: [u64; 9] = [1, 1, 2, 3, 7, 50, 1000, 65536, 1040000];
     let first_col: u64 = [0u64, 0, 1, 2, 3, 26, 700, 16000][rng.gen_range(0..8)];
     let mut rows = Vec::new();
     let (mut rmin, mut rmax, mut cmin, mut cmax) = (u64::MAX, 0u64, u64::MAX, 0u64);
